@@ -1070,9 +1070,12 @@ impl SvgElement {
     fn eval_pos_attr(&self, name: &str, value: &str, ctx: &impl ElementMap) -> Result<String> {
         if let Ok(attr_ss) = ScalarSpec::from_str(name) {
             if let (Some(el), remain) = split_relspec(value, ctx)? {
-                if let Ok(Some(bbox)) = ctx.get_element_bbox(el) {
-                    return self.pos_attr_helper(remain, &bbox, attr_ss);
-                }
+                // the referenced element may be known but not yet resolved; keeping the
+                // reference as the value would let it be dropped as a foreign attribute
+                let bbox = ctx
+                    .get_element_bbox(el)?
+                    .ok_or_else(|| SvgdxError::MissingBoundingBox(el.to_string()))?;
+                return self.pos_attr_helper(remain, &bbox, attr_ss);
             }
         }
         Ok(value.to_owned())
